@@ -110,3 +110,42 @@ return x + 900026, "last"`
 	}
 	return out
 }
+
+// EnumLineAfterShapes: a statement whose code generation ends by deleting or rewriting its last instruction
+// (and/or with a constant or variable last operand, comparisons, empty blocks, constant-operand propagation),
+// followed — after comment and blank lines — by a statement whose FIRST instruction faults on operands that are
+// already in registers.  The reported line must be the second statement's.
+func EnumLineAfterShapes() []*Program {
+	firsts := []string{
+		"local m = o or 'fast'", "local m = a and 'x'", "local m = a or b", "m0 = o or 1", "G = o or 1",
+		"local m = not o or 'z'", "local m = (a and b) or c", "if o then end", "while b do end",
+		"do local m = o or 1 end", "local m = a == b or c", "local m = a < 2 and c", "local m = {o or 1}",
+		"local m = a + 1", "m0 = a", "local m = c .. 'k'", "local m = hostid(o or 2)", "local m = -a or o",
+		"repeat until a or o", "for i = 1, 0 do end", "local m = function() return o or 1 end", "m0 = o and o.x or 3",
+	}
+	seconds := []string{
+		"local d = p.depth", "local s = p + q", "local k = p .. q", "local l = #p", "local n = -p", "local r = p < q",
+		"p()", "p.x = 1", "p[1] = q", "for i = p, 2 do end", "local y = p.x.y", "p:m()", "m0 = p.z", "local e = p == q or p.w",
+	}
+	places := []string{"main", "function", "loop"}
+	var out []*Program
+	for _, f := range firsts {
+		for _, s := range seconds {
+			for _, pl := range places {
+				pre := "local o, a, b, c = nil, 1, false, 's'\nlocal p, q, m0 = nil, nil, 0\n"
+				mid := f + "\n-- a comment line\n\n" + s + "\n"
+				var src string
+				switch pl {
+				case "main":
+					src = pre + mid + "emit('unreachable')"
+				case "function":
+					src = "local function run()\n" + pre + mid + "end\nrun()\nemit('unreachable')"
+				default:
+					src = "local function run()\n" + pre + "for round = 1, 2 do\n" + mid + "end\nend\nemit(pcall(run))\nrun()"
+				}
+				out = append(out, shapeProgram(src, "shape:line-after", "place:"+pl))
+			}
+		}
+	}
+	return out
+}
